@@ -1,6 +1,6 @@
 """Trusted models of builtins and container/str methods (appendix B of DESIGN.md).
 
-Every function here is part of the trusted base; ``conformance.py`` exercises each model
+Every function here is part of the trusted base; ``conformance.py`` (``./xv selftest``) exercises the models at sample points against CPython
 against CPython.  Models receive the running Evaluator ``R`` and evaluated arguments."""
 import ast
 import z3
